@@ -57,22 +57,54 @@ theorem unaCount_drop (base una : U32) (hu : o base una < 2 ^ 31) : ∀ l : List
       · omega
       · have := hlt x hx; omega
 
-theorem inPre_true (wnd : BitVec 16) (una : U32) (k : Kcp) :
+theorem dropAcked_unacked : ∀ (l : List Seg), (∀ x ∈ l, x.acked = false) → dropAcked l = l := by
+  intro l h
+  cases l with
+  | nil => rfl
+  | cons s r =>
+    unfold dropAcked
+    rw [if_neg (by rw [h s (List.mem_cons_self ..)]; simp)]
+
+theorem dropAcked_idem : ∀ (l : List Seg), dropAcked (dropAcked l) = dropAcked l := by
+  intro l
+  induction l with
+  | nil => rfl
+  | cons s r ih =>
+    by_cases h : s.acked = true
+    · have : dropAcked (s :: r) = dropAcked r := by rw [dropAcked, if_pos h]
+      rw [this, ih]
+    · have : dropAcked (s :: r) = s :: r := by rw [dropAcked, if_neg h]
+      rw [this, this]
+
+/-- `shrink_buf` is idempotent -/
+theorem shrinkBuf_idem (k : Kcp) : shrinkBuf (shrinkBuf k) = shrinkBuf k := by
+  rw [shrinkBuf_eq k, shrinkBuf_eq]
+  simp only [dropAcked_idem]
+
+theorem inPre_shrunk (regular : Bool) (wnd : BitVec 16) (una : U32) (k : Kcp) :
+    shrinkBuf (inPre regular wnd una k) = inPre regular wnd una k := by
+  unfold inPre; exact shrinkBuf_idem _
+
+theorem inPre_true (wnd : BitVec 16) (una : U32) (k : Kcp) (hna : ∀ x ∈ k.snd_buf, x.acked = false) :
     inPre true wnd una k =
       { k with rmt_wnd := wnd.setWidth 32, snd_buf := k.snd_buf.drop (unaCount una k.snd_buf),
                snd_una := match k.snd_buf.drop (unaCount una k.snd_buf) with | s :: _ => s.sn | [] => k.snd_nxt } := by
+  have hd : dropAcked (k.snd_buf.drop (unaCount una k.snd_buf)) = k.snd_buf.drop (unaCount una k.snd_buf) :=
+    dropAcked_unacked _ (fun x hx => hna x (List.mem_of_mem_drop hx))
   unfold inPre parseUna
   rw [shrinkBuf_eq]
+  simp only [↓reduceIte, hd]
   rfl
 
 /-- the send side after the prologue of a step whose `una` is not beyond `snd_nxt` -/
 theorem inPre_clean (base : U32) (wnd : BitVec 16) (una : U32) (k : Kcp)
+    (hna : ∀ x ∈ k.snd_buf, x.acked = false)
     (hs : Sorted base k.snd_buf) (hb : ∀ x ∈ k.snd_buf, o base x.sn < o base k.snd_nxt)
     (hn : o base k.snd_nxt < 2 ^ 31) (hu : o base una ≤ o base k.snd_nxt) :
     ∃ c su, inPre true wnd una k = { k with rmt_wnd := wnd.setWidth 32, snd_buf := k.snd_buf.drop c, snd_una := su } ∧
       (∀ x ∈ k.snd_buf.drop c, o base una ≤ o base x.sn) ∧ o base una ≤ o base su ∧ o base su ≤ o base k.snd_nxt := by
   have hd := unaCount_drop base una (by omega) k.snd_buf hs (fun x hx => by have := hb x hx; omega)
-  refine ⟨unaCount una k.snd_buf, _, inPre_true wnd una k, hd, ?_⟩
+  refine ⟨unaCount una k.snd_buf, _, inPre_true wnd una k hna, hd, ?_⟩
   cases hc : k.snd_buf.drop (unaCount una k.snd_buf) with
   | nil => exact ⟨hu, Nat.le_refl _⟩
   | cons s t =>
@@ -94,6 +126,7 @@ def AckLike (base : U32) (nxt : U32) (fr : Frm) : Prop :=
 
 /-- one such frame at A: a prefix of the send buffer is dropped, everything left is at or above `una` -/
 theorem inFr_ackLike (base : U32) (st : InLoop) (fr : Frm)
+    (hna : ∀ x ∈ st.k.snd_buf, x.acked = false)
     (hs : Sorted base st.k.snd_buf) (hb : ∀ x ∈ st.k.snd_buf, o base x.sn < o base st.k.snd_nxt)
     (hn : o base st.k.snd_nxt < 2 ^ 31) (hf : AckLike base st.k.snd_nxt fr) :
     ∃ c su pr, (inFr true st fr).k =
@@ -101,14 +134,14 @@ theorem inFr_ackLike (base : U32) (st : InLoop) (fr : Frm)
       (∀ x ∈ st.k.snd_buf.drop c, o base fr.una ≤ o base x.sn) ∧
       (inFr true st fr).panic = st.panic ∧ (inFr true st fr).ret = st.ret := by
   obtain ⟨hcmd, hu, hack⟩ := hf
-  obtain ⟨c, su, hpre, hge, hsu1, hsu2⟩ := inPre_clean base fr.wnd fr.una st.k hs hb hn hu
+  obtain ⟨c, su, hpre, hge, hsu1, hsu2⟩ := inPre_clean base fr.wnd fr.una st.k hna hs hb hn hu
   unfold inFr
   rw [inStep_eq]
   by_cases hA : fr.cmd.toNat = IKCP_CMD_ACK
   · rw [if_pos hA]
     have hno := ack_noop base (inPre true fr.wnd fr.una st.k) fr.sn fr.ts
       (by rw [hpre]; exact Nat.lt_of_lt_of_le (hack hA) hsu1) (by rw [hpre]; show o base su < _; omega)
-    rw [hno.1, hno.2]
+    rw [hno.1, inPre_shrunk, hno.2]
     exact ⟨c, su, st.k.probe, by rw [hpre], hge, rfl, rfl⟩
   · rw [if_neg hA]
     have hP : ¬ fr.cmd.toNat = IKCP_CMD_PUSH := by
@@ -120,7 +153,7 @@ theorem inFr_ackLike (base : U32) (st : InLoop) (fr : Frm)
 
 /-- a whole datagram of such frames -/
 theorem inFrs_ackLike (base : U32) (frs : List Frm) : ∀ (st : InLoop),
-    Sorted base st.k.snd_buf → (∀ x ∈ st.k.snd_buf, o base x.sn < o base st.k.snd_nxt) →
+    (∀ x ∈ st.k.snd_buf, x.acked = false) → Sorted base st.k.snd_buf → (∀ x ∈ st.k.snd_buf, o base x.sn < o base st.k.snd_nxt) →
     o base st.k.snd_nxt < 2 ^ 31 → (∀ fr ∈ frs, AckLike base st.k.snd_nxt fr) → st.panic = false →
     ∃ c su pr rw, (inFrs true frs st).k =
         { st.k with rmt_wnd := rw, snd_buf := st.k.snd_buf.drop c, snd_una := su, probe := pr } ∧
@@ -128,16 +161,17 @@ theorem inFrs_ackLike (base : U32) (frs : List Frm) : ∀ (st : InLoop),
       (inFrs true frs st).panic = false ∧ (inFrs true frs st).ret = st.ret := by
   induction frs with
   | nil =>
-    intro st _ _ _ _ hp
+    intro st _ _ _ _ _ hp
     exact ⟨0, st.k.snd_una, st.k.probe, st.k.rmt_wnd, rfl, fun fr hfr => by simp at hfr, hp, rfl⟩
   | cons fr rest ih =>
-    intro st hs hb hn hf hp
-    obtain ⟨c, su, pr, hk, hge, hpan, hret⟩ := inFr_ackLike base st fr hs hb hn (hf fr (List.mem_cons_self ..))
+    intro st hna hs hb hn hf hp
+    obtain ⟨c, su, pr, hk, hge, hpan, hret⟩ := inFr_ackLike base st fr hna hs hb hn (hf fr (List.mem_cons_self ..))
     have hbuf : (inFr true st fr).k.snd_buf = st.k.snd_buf.drop c := by rw [hk]
     have hnxt : (inFr true st fr).k.snd_nxt = st.k.snd_nxt := by rw [hk]
     unfold inFrs
     rw [if_neg (by rw [hpan, hp]; simp)]
     obtain ⟨c2, su2, pr2, rw2, hk2, hge2, hpan2, hret2⟩ := ih (inFr true st fr)
+      (by rw [hbuf]; exact fun x hx => hna x (List.mem_of_mem_drop hx))
       (by rw [hbuf]; exact hs.drop c)
       (by rw [hbuf, hnxt]; exact fun x hx => hb x (List.mem_of_mem_drop hx))
       (by rw [hnxt]; exact hn)
